@@ -7,7 +7,7 @@ namespace Gmx.Drv.Tbl
 open Gmx.Drv
 open Gmx.Gen.MarketConfig Gmx.Gen.Pools Gmx.MarketInit
 
-def c17Engine (args : List String) : String :=
+def c17Core (args : List String) : String :=
   match args with
   | ["key", k] =>
     match Key.ofSnake? k with
@@ -37,5 +37,14 @@ def c17Engine (args : List String) : String :=
       | _, _ => "novalue"
   | ["nkeys"] => s!"ok {Key.all.length} {Flag.all.length} {Kind.all.length}"
   | _ => "bad-op"
+
+/-- `skey / sflag / spool <index> <long> <short> …`: the same questions on a market of an explicit shape. In the
+model `Market::init` takes no token argument into the config, and only `long == short` into the pools. -/
+def c17Engine (args : List String) : String :=
+  match args with
+  | ["skey", _, _, _, k] => c17Core ["key", k]
+  | ["sflag", _, _, _, x] => c17Core ["flag", x]
+  | ["spool", _, l, s, k] => c17Core ["pool", l, s, k]
+  | other => c17Core other
 
 end Gmx.Drv.Tbl
